@@ -1076,7 +1076,7 @@ func dependsOn(v, src ssa.Value) bool {
 type deepStore struct {
 	Field *types.Var
 	Store *ssa.Store
-	Site  ssa.Instruction          // in the top function: the store itself or the call through which it happens
+	Site  ssa.Instruction         // in the top function: the store itself or the call through which it happens
 	subst map[ssa.Value]ssa.Value // helper parameter -> argument at the call site (already translated)
 }
 
